@@ -219,6 +219,13 @@ def build():
         C('surface.calc_surface_energy', lambda s, t, n=nodal: surface.calc_surface_energy(s, t, nodal=n), S(), TT, label='nodal=%s' % nodal)
         C('surface.calc_surface_energy', lambda s, t, r, n=nodal: surface.calc_surface_energy(s, t, nodal=n, up_red=r, down_red=r, trim=True),
           S(), TT, K(1., 0.9, 0.8), label='red nodal=%s' % nodal)
+    # zero / sub-half-step travel times with SCALAR reductions != 1 (no padding needed: a place where an in-place scaling of the
+    # record could hide)
+    for fn_name in ('calc_surface_energy', 'calc_cum_abs_surface_energy', 'get_time_shift_motions'):
+        C('surface.' + fn_name, lambda s, t, f=fn_name: getattr(surface, f)(s, t, up_red=0.5, down_red=0.75), S(), K(0.0, 0.002, 0.004),
+          label='tt < dt/2, scalar reductions')
+        C('surface.' + fn_name, lambda s, f=fn_name: getattr(surface, f)(s, 0.0, up_red=2.0, down_red=1.0, nodal=False), S(),
+          label='tt = 0 scalar')
     C('surface.calc_cum_abs_surface_energy', lambda s, t: surface.calc_cum_abs_surface_energy(s, t, stt=0.1, start=True), S(), TT)
     C('surface.get_time_shift_motions', lambda s, t: surface.get_time_shift_motions(s, t), S(), TT)
     C('surface.trim_to_length', lambda v, t: surface.trim_to_length(v, 100, t, 0.01, trim=True),
@@ -232,6 +239,9 @@ def build():
     X('design_spectra.t_eff', 'scalar parameters only')
     # ---- loader: the saving functions take arrays / signals
     tmp = tempfile.mkdtemp(prefix='c05_')
+    import atexit
+    import shutil
+    atexit.register(shutil.rmtree, tmp, True)
 
     def _save_vals(a):
         p = os.path.join(tmp, 'v.txt')
